@@ -288,6 +288,15 @@ func (in *Interp) outcome(r result, ftype *ast.FuncType) *Outcome {
 		o.Kind = "panic"
 	case cNext:
 		o.Kind = "fallthrough"
+	case cBreak:
+		// only when a loop body is run on its own: a break (or a labelled break) that leaves it
+		o.Kind, o.Label = "break", r.label
+	case cContinue:
+		if r.label == "<cut>" {
+			o.Kind = "loop"
+		} else {
+			o.Kind, o.Label = "continue", r.label
+		}
 	default:
 		o.Kind = "loop"
 	}
